@@ -123,6 +123,97 @@ def make(Adjustments, kw):
             return None, e
 
 
+def server_application(run, tier):
+    """create_server() really applies the settings: worker threads started, one listening socket per
+    listen entry (bound where asked, backlog as configured), unix socket permissions.  Real loopback /
+    unix sockets are bound (port 0, scratch directory); worker threads are recorded, not started."""
+    import shutil
+    import stat
+    import tempfile
+
+    import waitress.server as ws
+    import waitress.task as wt
+    import waitress.wasyncore as wc
+
+    n = 0
+    classes = set()
+    started = []
+    listens = []
+
+    class Disp(wt.ThreadedTaskDispatcher):
+        def start_new_thread(self, target, thread_no):
+            started.append(thread_no)
+
+    class RecSock(socket.socket):
+        def listen(self, backlog=None):
+            listens.append(backlog)
+            return super().listen(backlog)
+
+    class Shim:
+        socket = RecSock
+
+        def __getattr__(self, name):
+            return getattr(socket, name)
+
+    def app(environ, start_response):  # pragma: no cover
+        start_response("200 OK", [])
+        return []
+
+    try:
+        probe = socket.socket(socket.AF_INET, socket.SOCK_STREAM)
+        probe.bind(("127.0.0.1", 0))
+        probe.close()
+    except OSError as e:
+        run.assume(f"loopback cannot be bound here ({e}): the create_server application sub-check was skipped")
+        return 0, classes
+    real_disp, real_sockmod = ws.ThreadedTaskDispatcher, wc.socket
+    ws.ThreadedTaskDispatcher, wc.socket = Disp, Shim()
+    tmp = tempfile.mkdtemp(prefix="c20-")
+    try:
+        cases = []
+        for threads in (1, 3, 6):
+            for nl in (1, 2, 3):
+                for backlog in (5, 1024):
+                    cases.append(dict(threads=threads, backlog=backlog, listen=" ".join(["127.0.0.1:0"] * nl)))
+        for perms in ("600", "660", "644"):
+            cases.append(dict(threads=2, unix_socket=os.path.join(tmp, f"s{perms}.sock"), unix_socket_perms=perms))
+        for kw in cases:
+            n += 1
+            del started[:], listens[:]
+            m = {}
+            srv = None
+            try:
+                srv = ws.create_server(app, map=m, **kw)
+                lst = [o for o in m.values() if isinstance(o, ws.BaseWSGIServer)]
+                classes.add(("server", kw["threads"], len(lst), kw.get("backlog"), kw.get("unix_socket_perms")))
+                if sorted(started) != list(range(kw["threads"])):
+                    run.violation("server:threads", f"create_server({kw}) started workers {sorted(started)}, expected {kw['threads']}", {"kw": kw})
+                if "listen" in kw:
+                    want = len(kw["listen"].split())
+                    if len(lst) != want or not all(o.accepting for o in lst):
+                        run.violation("server:listen", f"create_server({kw}): {len(lst)} listening sockets in the map, expected {want}", {"kw": kw})
+                    if any(o.socket.getsockname()[0] != "127.0.0.1" for o in lst):
+                        run.violation("server:listen-address", f"create_server({kw}): bound to {[o.socket.getsockname() for o in lst]}", {"kw": kw})
+                    if listens != [kw["backlog"]] * want:
+                        run.violation("server:backlog", f"create_server({kw}): listen() called with {listens}", {"kw": kw})
+                else:
+                    mode = stat.S_IMODE(os.stat(kw["unix_socket"]).st_mode)
+                    if mode != int(kw["unix_socket_perms"], 8):
+                        run.violation("server:unix-perms", f"create_server({kw}): socket file mode {oct(mode)}", {"kw": {k: str(v) for k, v in kw.items()}})
+            except Exception as e:  # noqa
+                run.violation("server:exception", f"create_server({kw}) raised {type(e).__name__}: {e}", {"kw": {k: str(v) for k, v in kw.items()}})
+            finally:
+                for o in list(m.values()):
+                    try:
+                        o.close()
+                    except Exception:
+                        pass
+    finally:
+        ws.ThreadedTaskDispatcher, wc.socket = real_disp, real_sockmod
+        shutil.rmtree(tmp, ignore_errors=True)
+    return n, classes
+
+
 def main(tier, only=None):
     from waitress.adjustments import Adjustments
     import waitress.runner
@@ -131,6 +222,7 @@ def main(tier, only=None):
     run.cov["rule"] = (
         "all 32 subsets of {listen, host, port, sockets, unix_socket} x proxy-trust option combinations vs a reference exclusion table; every _params entry x values of its type vs a reference cast; "
         "--x / --no-x / --x=v / repeated --listen vs the keyword form, attribute by attribute; socket lists up to length 3 over 4 kinds; option names in the three documents vs _params; "
+        "default of every adjustment vs the value documented in docs/arguments.rst; create_server() with threads x listen entries x backlog and unix_socket_perms: workers started, sockets bound and listening as configured; "
         "distinct_nontrivial = distinct (option set, verdict) + (option, value, result) classes"
     )
     run.assume("getaddrinfo is only called with numeric hosts (hermetic)", "docs are compared by option name, not by prose")
@@ -244,7 +336,7 @@ def main(tier, only=None):
             got = getattr(adj, name)
             if name == "trusted_proxy_headers":
                 want = {x.lower() for x in want}
-            if got != want or type(got) is not type(want):
+            if got != want or isinstance(got, bool) != isinstance(want, bool):
                 run.violation(f"cast:{name}", f"{name}={val!r} applied as {got!r}, documented cast gives {want!r}", {"kw": rep})
 
     # -- 3. CLI vs keyword ---------------------------------------------------
@@ -384,8 +476,89 @@ def main(tier, only=None):
             o = p.replace("_", "-")
             if o not in found:
                 run.violation(f"docs:{label}-missing", f"{label} does not mention --{o}", {"option": o})
+    # -- 8. host / port / listen resolve to the documented listening addresses ---
+    def addrs(a):
+        return sorted((fam, sa[0], sa[1]) for fam, _, _, sa in a.listen)
+
+    for host in (None, "127.0.0.1", "0.0.0.0"):
+        for port in (None, 9001, "9002"):
+            kw = {}
+            if host is not None:
+                kw["host"] = host
+            if port is not None:
+                kw["port"] = port
+            n += 1
+            adj, err = make(Adjustments, kw)
+            want = [(socket.AF_INET, host or "0.0.0.0", int(port or 8080))]
+            classes.add(("listen", host, str(port), err is None))
+            if err is not None or addrs(adj) != want:
+                run.violation("applied:listen", f"Adjustments({kw}) listens on {addrs(adj) if adj else err!r}, documented: {want}", {"kw": {k: str(v) for k, v in kw.items()}})
+    for spec, want in (
+        ("127.0.0.1:9003", [(socket.AF_INET, "127.0.0.1", 9003)]),
+        ("127.0.0.1:9003 127.0.0.1:9004", [(socket.AF_INET, "127.0.0.1", 9003), (socket.AF_INET, "127.0.0.1", 9004)]),
+        ("127.0.0.1:9003 127.0.0.1:9003", [(socket.AF_INET, "127.0.0.1", 9003)]),
+        ("127.0.0.1", [(socket.AF_INET, "127.0.0.1", 8080)]),
+        ("0.0.0.0:9005", [(socket.AF_INET, "0.0.0.0", 9005)]),
+    ):
+        for form in ("str", "list"):
+            n += 1
+            kw = {"listen": spec if form == "str" else spec.split()}
+            adj, err = make(Adjustments, kw)
+            classes.add(("listen-spec", spec, form, err is None))
+            if err is not None or addrs(adj) != want:
+                run.violation("applied:listen", f"Adjustments({kw}) listens on {addrs(adj) if adj else err!r}, documented: {want}", {"kw": {"listen": spec}})
+    for v4, v6 in ((True, True), (True, False), (False, True)):
+        n += 1
+        kw = {"listen": "*:9006", "ipv4": v4, "ipv6": v6}
+        adj, err = make(Adjustments, kw)
+        allowed = ({socket.AF_INET} if v4 else set()) | ({socket.AF_INET6} if v6 else set())
+        classes.add(("listen-families", v4, v6, err is None))
+        if err is None:
+            fams = {f for f, _, _ in addrs(adj)}
+            if not fams or not fams <= allowed or any(p != 9006 for _, _, p in addrs(adj)):
+                run.violation("applied:listen-families", f"Adjustments({kw}) listens on {addrs(adj)}", {"kw": {k: str(v) for k, v in kw.items()}})
+        elif v4:
+            run.violation("applied:listen-families", f"Adjustments({kw}) refused: {err}", {"kw": {k: str(v) for k, v in kw.items()}})
+
+    # -- 7. documented defaults ------------------------------------------------
+    try:
+        text = open(os.path.join(docs, "arguments.rst")).read()
+        adj0 = Adjustments()
+        for block in re.split(r"^(?=[a-z][a-z0-9_]+\n {3,}\S)", text, flags=re.M):
+            m = re.match(r"([a-z][a-z0-9_]+)\n", block)
+            if not m or m.group(1) not in impl:
+                continue
+            name = m.group(1)
+            d = re.findall(r"Default: ``([^`]*)``", block) or re.findall(r"default ``([^`]*)``", block)
+            if not d:
+                continue
+            n += 1
+            doc = d[0]
+            got = getattr(adj0, name)
+            if doc == "None":
+                want = None
+            elif doc in ("True", "False"):
+                want = doc == "True"
+            elif doc == "[]":
+                want = []
+            elif name == "unix_socket_perms":
+                want = int(doc.strip("'"), 8)
+            elif re.fullmatch(r"\d+", doc):
+                want = int(doc)
+            else:
+                want = doc.strip("'")
+            classes.add(("default", name, repr(got)))
+            if got != want or isinstance(got, bool) != isinstance(want, bool):
+                run.violation(f"default:{name}", f"docs/arguments.rst gives the default of {name} as {doc!r}; Adjustments() has {got!r}", {"param": name})
+    except FileNotFoundError:
+        pass
+
+    # -- 6. create_server applies the settings -----------------------------------
+    n6, cl6 = server_application(run, tier)
+    n += n6
+    classes |= cl6
     run.add(states=len(classes), transitions=n, traces_validated_against_impl=n, evaluations=n, distinct_nontrivial=len(classes))
-    run.part("cases", total=n)
+    run.part("cases", total=n, create_server_cases=n6)
     run.sample({"kw": {"listen": "127.0.0.1:8081", "host": "127.0.0.1"}, "expected": "ValueError"})
     run.sample({"argv": ["--no-ipv6"], "kw": {"ipv6": False}})
     return run.finish()
